@@ -26,6 +26,10 @@ def main():
             sh("git -C /repo checkout -- . && git -C /repo clean -fdq -e '*.orig' sopht")
             return 2
     out = {}
+    import shutil, tempfile
+    evbak = tempfile.mkdtemp(prefix="evbak", dir=os.path.join(ROOT, ".cache"))
+    for f in os.listdir(os.path.join(ROOT, "evidence")):
+        shutil.copy2(os.path.join(ROOT, "evidence", f), evbak)
     try:
         for p in props:
             c = sh(f"cd {ROOT} && /venv/bin/python tools/check.py --property {p} --tier {tier}", timeout=3600)
@@ -41,6 +45,9 @@ def main():
             print(f"{sid} -> {p}: exit={c.returncode} {lines}{detail}")
     finally:
         sh("git -C /repo checkout -- . ; find /repo -name '*.orig' -delete; find /repo -name '*.rej' -delete")
+        for f in os.listdir(evbak):  # evidence of the registered checks must come from the unchanged tree
+            shutil.copy2(os.path.join(evbak, f), os.path.join(ROOT, "evidence", f))
+        shutil.rmtree(evbak, ignore_errors=True)
     assert sh("git -C /repo status --porcelain").stdout.strip() == "", "/repo not clean after revert"
     json.dump(out, open(os.path.join(ROOT, "seeded", sid, f"eval_{tier}.json"), "w"), indent=1)
     return 0
